@@ -69,7 +69,9 @@ CHECKS = {
     "C09": {
         "text": "For each (w,m) in the bound table and each length L, for every byte string of that length the solver shows the real MinimiserGenerator emits exactly "
         "the oracle's maximal runs (minimiser, start, end), left to right, and nothing else (no placeholder). Found two genuine defects on the original tree "
-        "(last run dropped; u64::MAX emitted for a tail in [m,w)), both replayed natively and repaired by a fix: commit.",
+        "(last run dropped; u64::MAX emitted for a tail in [m,w)), both replayed natively and repaired by a fix: commit. Second encoding: ONE INDUCTIVE STEP - from any "
+        "state satisfying a functional invariant (what every field means in terms of the sequence and position; proved inductive, base case included) one next() returns "
+        "exactly the oracle's next maximal run - which covers call histories of any length for sequences up to N.",
         "design_ref": "DESIGN.md section 3 / C09",
         "note": NOTE_COMMON + "std VecDeque is replaced under cfg(kani) by a fixed-capacity ring model (capacity overflow is a reported failure); "
         "per-loop unwind bounds for the `for j in 0..buff.len()` loops are discovered from the goto binary, unwinding assertions stay on. "
